@@ -705,6 +705,15 @@ pub(crate) fn take_side_digest() -> u64 {
 
 /// Format-agnostic oracle for the Debug output of iterators and drains (whose text the crate does
 /// not document): formatting may only look at the elements that are still to be produced.
+/// Runs `f` without recording which elements user code looked at.
+pub(crate) fn untracked<T>(f: impl FnOnce() -> T) -> T {
+    let saved = ledger::take_touched();
+    let r = f();
+    ledger::take_touched();
+    ledger::with(|l| l.touched = saved);
+    r
+}
+
 pub(crate) fn debug_touches_only(what: &str, remaining: &[u32], f: impl FnOnce() -> String) -> R<()> {
     let saved = ledger::take_touched();
     let text = f();
